@@ -126,7 +126,7 @@ CHECKS = {
         technique="Coq proof (well-formedness for every analysed text; exact extents for every valid program by composition with the C04 round trip) over a Gallina model of the folding handler + correspondence through the binary"),
     "C09": dict(
         category="proof",
-        text="Machine-checked (Props/C09.v, 27 theorems) over the model of formatting.rs (Model/Format.v); every clause of the "
+        text="Machine-checked (Props/C09.v, 29 theorems) over the model of formatting.rs (Model/Format.v); every clause of the "
              "property is a theorem for EVERY valid program with comments in ANY gap, every layout and option setting. (1) The "
              "formatted text lexes to the same NON-COMMENT token kinds and literal values, without lexical error (C09_tokens_any, "
              "C09_document_any, C09_total_any: the printer equals the abstract printer pp_prog, its output is the rendering of "
@@ -134,10 +134,11 @@ CHECKS = {
              "programs without comments or with leading comments the output is literally the program's token spellings separated "
              "by non-merging whitespace: C09_structure(_lead), separator table, literal round trips). (2) It produces the same "
              "diagnostics: well-typed or not, the formatted text is analysed to the same messages in the same order "
-             "(C09_same_messages_any: the analysis commutes with erasing ranges, offsets and doc comments; for comment-free "
-             "programs even the same tree, table and token-index ranges: C09_same_diagnostics). (3) The single edit covers exactly "
-             "the whole document (C09_whole_edit, C09_whole_document_covers). Stated, not proved: that the diagnostics' RANGES "
-             "correspond token by token when comments are dropped or moved (C09_same_ranges_statement; holds on the instances). Tie "
+             "on the same code tokens (C09_same_diagnostics_any = C09_same_messages_any + C09_same_ranges_any: the analysis commutes "
+             "with erasing ranges, offsets and doc comments, and every diagnostic's range is a function of its node's position, "
+             "which counted in non-comment tokens does not depend on the comment slots; for comment-free programs even the same "
+             "tree, table and token-index ranges: C09_same_diagnostics). (3) The single edit covers exactly "
+             "the whole document (C09_whole_edit, C09_whole_document_covers). Tie "
              "to the code and failing-input search: model = real formatter on generated programs x layouts x options; the "
              "implementation oracle re-lexes the formatted text with the real lexer, re-opens it (same diagnostics up to layout) "
              "and checks the edit range; answers along edit histories.",
